@@ -42,7 +42,10 @@ LEVEL_TEXT = (
     "and the matrix solver, LinearizedADMM, ProximalADMM, PDHG, PGM; 1-d, 2-d and block variables). Generated obligations "
     "(ast translator, every run): constructor defaults, normalised statements of every transcribed method and of the x-step "
     "solver paths, assignment order of step()/__init__, solver-class table and the docstring parameter ranges equal the "
-    "tables pinned in Model/StepsSource.lean (C11_source_transcription links them to the model)."
+    "tables pinned in Model/StepsSource.lean (C11_source_transcription links them to the model); after a broken obligation "
+    "the failing-input search runs a panel of exactly the classes / solver kinds whose rows differ. compute_rhs() and lhs_op of "
+    "the linear-system x-solvers are compared with the documented normal equations on every ADMM case; losses built with * and / "
+    "are part of every stream."
 )
 LEVEL_NOTE = (
     "Trusted: Lean kernel + Mathlib (axioms propext, Classical.choice, Quot.sound); real-number idealisation (the model runs "
@@ -98,6 +101,19 @@ def documented_x_update(b):
     sub-problem solver, which is itself under test); None when f is not of that form"""
     import scico.numpy as snp
 
+    ne = documented_normal_equation(b)
+    if ne is None:
+        return None
+    H, rhs = ne
+    if np.linalg.cond(H) > 1e10:
+        return None
+    x = np.linalg.solve(H, rhs)
+    return G.unflat(G.realify(x, b.cplx).tolist(), b.xshape, b.cplx)
+
+
+def documented_normal_equation(b):
+    """(H, rhs) of the documented x-update: H = 2 s A^H W A + sum rho_i C_i^H C_i (`lhs_op` of the linear-system solvers),
+    rhs = 2 s A^H W y + sum rho_i C_i^H (z_i - u_i) (`compute_rhs`), dense numpy on the flattened variable"""
     s, cx, r = b.solver, b.cplx, b.recipe
     n = G.size_of(b.xshape)
     fr = r.get("f")
@@ -116,10 +132,41 @@ def documented_x_update(b):
         M = np.asarray(G.op_dense(c, b.xshape)[0])
         H += w_ * rho * M.conj().T @ M
         rhs += w_ * rho * M.conj().T @ (np.asarray(G.np_flat(z)) - np.asarray(G.np_flat(u)))
-    if np.linalg.cond(H) > 1e10:
-        return None
-    x = np.linalg.solve(H, rhs)
-    return G.unflat(G.realify(x, cx).tolist(), b.xshape, cx)
+    return H, rhs
+
+
+LINEAR_FAMILY = ("linear", "linear-jax", "matrix", "circ", "fblock")
+
+
+def check_normal_equation(ctx, b, recipe, rng, stepno):
+    """ADMM with a solver of the linear-system family, at the current state: `compute_rhs()` and `lhs_op` (the transcription
+    `linRhs` / `linLhs` of C03_admm_linear_solver_contract) against the documented dense formulas"""
+    sub = b.solver.subproblem_solver
+    ne = documented_normal_equation(b)
+    if ne is None:
+        return
+    H, rhs = ne
+    cx = b.cplx
+    scale = 1.0 + float(np.max(np.abs(rhs))) if rhs.size else 1.0
+    got = np.asarray(G.np_flat(sub.compute_rhs()), dtype=np.complex128)
+    ctx.count("x-update:compute_rhs:" + recipe["solver"])
+    if got.shape != rhs.shape or not np.all(np.abs(got - rhs) <= 1e-9 * scale):
+        fail = {"class": type(sub).__name__, "method": "compute_rhs", "recipe": recipe, "state": b.read(), "step": stepno,
+                "returned": G.realify(got, True).tolist(), "documented": G.realify(rhs, True).tolist()}
+        ctx.disagree("steps.admm.compute_rhs", {"recipe": recipe, "step": stepno}, fail["returned"], fail["documented"],
+                     oracle=lambda c: fail)
+    if hasattr(sub, "lhs_op"):
+        v = G.rand_value(rng, b.xshape, cx)
+        va = np.asarray(G.np_flat(G.unflat(v, b.xshape, cx)), dtype=np.complex128)
+        want = H @ va
+        got = np.asarray(G.np_flat(sub.lhs_op(G.unflat(v, b.xshape, cx))), dtype=np.complex128)
+        ctx.count("x-update:lhs_op:" + recipe["solver"])
+        sc2 = 1.0 + float(np.max(np.abs(want))) if want.size else 1.0
+        if got.shape != want.shape or not np.all(np.abs(got - want) <= 1e-9 * sc2):
+            fail = {"class": type(sub).__name__, "method": "lhs_op", "recipe": recipe, "argument": v,
+                    "returned": G.realify(got, True).tolist(), "documented": G.realify(want, True).tolist()}
+            ctx.disagree("steps.admm.lhs_op", {"recipe": recipe, "step": stepno}, fail["returned"], fail["documented"],
+                         oracle=lambda c: fail)
 
 
 def documented_step(b):
@@ -558,6 +605,8 @@ def run_case(ctx, model, recipe, k, rng, accessors=True, tag="gen"):
     drifted = False
     for i in range(k):
         bb_noise = G.real_bb(recipe) and _bb_ill_conditioned(b)
+        if a == "admm" and recipe.get("solver") in LINEAR_FAMILY and len(recipe["C"]) > 0 and (i == 0 or i == k - 1):
+            check_normal_equation(ctx, b, recipe, rng, i)
         b.solver.step()
         post = b.read()
         if i == 0 and not common.allclose(post["x"], pre["x"], rtol=1e-12):
@@ -737,7 +786,7 @@ def correspond(ctx, model):
     for name, c in corpus_cases():
         run_case(ctx, model, c["recipe"], int(c.get("k", 3)), rng, tag="corpus")
         ctx.count(f"corpus:{name}")
-    n = ctx.n(36, 130)
+    n = ctx.n(30, 130)
     kmax = ctx.n(5, 50)
     import gc
 
@@ -756,7 +805,7 @@ def correspond(ctx, model):
                 k = int(rng.integers(1, kmax + 1))
             run_case(ctx, model, recipe, min(k, kmax), rng, accessors=True, tag="edge" if edge else "valid")
     # exact-arithmetic stream (bit-for-bit comparison, no tolerance)
-    for it in range(ctx.n(6, 40)):
+    for it in range(ctx.n(5, 40)):
         for alg in G.EXACT_ALGS:
             run_case(ctx, model, G.gen_exact(rng, alg), 3, rng, accessors=False, tag="exact")
 
@@ -844,11 +893,111 @@ def oracle_defaults(rng):
     return None
 
 
+class _Probe:
+    """stands in for the run context while a targeted panel runs: disagreements are not recorded as violations, their
+    implementation-only oracles are evaluated and the first failing input is kept"""
+
+    def __init__(self, ctx):
+        self._c = ctx
+        self.failing = None
+        self.unexplained = 0
+
+    def __getattr__(self, k):
+        return getattr(self._c, k)
+
+    def case(self, *a, **k):
+        pass
+
+    def disagree(self, op, case, impl, model, oracle=None, known_id=None, note=""):
+        if known_id is not None and self._c.is_known(known_id):
+            return
+        r = None
+        if oracle is not None:
+            try:
+                r = oracle(case)
+            except Exception:  # noqa: BLE001
+                r = None
+        if r is not None:
+            if self.failing is None:
+                self.failing = dict(r, op=op)
+        else:
+            self.unexplained += 1
+
+
+ROW_ALGS = {"ADMM": ["admm"], "LinearizedADMM": ["ladmm"], "ProximalADMMBase": ["padmm", "nlpadmm"], "ProximalADMM": ["padmm"],
+            "NonLinearPADMM": ["nlpadmm"], "PDHG": ["pdhg"], "PGM": ["pgm", "apgm"], "AcceleratedPGM": ["apgm"],
+            "Functional": ["pdhg"]}
+ROW_SOLVERS = {"SubproblemSolver": None, "GenericSubproblemSolver": ["generic"], "LinearSubproblemSolver": ["linear", "linear-jax", "matrix", "circ", "fblock"],
+               "MatrixSubproblemSolver": ["matrix"], "CircularConvolveSolver": ["circ"], "FBlockCircularConvolveSolver": ["fblock"],
+               "G0BlockCircularConvolveSolver": ["g0block"]}
+
+
+def panel_targets(rows):
+    """differing table rows -> [(alg, solver kinds or None)] : the optimiser classes (and ADMM sub-problem solvers) whose
+    transcription differs from the working tree"""
+    out = []
+    for r in rows:
+        cls = r.split(":", 1)[1].split(".")[0] if ":" in r else r
+        if cls in ROW_SOLVERS:
+            t = ("admm", tuple(ROW_SOLVERS[cls]) if ROW_SOLVERS[cls] else None)
+            if t not in out:
+                out.append(t)
+        for a in ROW_ALGS.get(cls, []):
+            if (a, None) not in out:
+                out.append((a, None))
+    return out
+
+
+def targeted_panel(ctx, model, rows, rng):
+    """exercise exactly the functions whose pinned statement list / defaults differ: for every affected class a panel of fresh
+    instances (valid and edge parameters, exact-arithmetic instances, every accessor with and without arguments, constructor
+    state, k steps) is run against the model; each disagreement is handed to the implementation-only oracles (documented
+    equations evaluated on the optimiser's own objects).  Returns the first failing input, or None"""
+    probe = _Probe(ctx)
+    for alg, kinds in panel_targets(rows):
+        made = 0
+        for it in range(600):
+            if made >= 24 or probe.failing is not None:
+                break
+            recipe = G.gen_recipe(rng, alg, edge=(it % 4 == 3))
+            if kinds is not None and recipe.get("solver") not in kinds:
+                continue
+            made += 1
+            run_case(probe, model, recipe, int(rng.integers(2, 5)), rng, accessors=True, tag="panel")
+            ctx.count(f"targeted-panel:{alg}" + ("" if kinds is None else ":" + "+".join(kinds)))
+        if alg in G.EXACT_ALGS and probe.failing is None:
+            for it in range(12):
+                run_case(probe, model, G.gen_exact(rng, alg), 3, rng, accessors=False, tag="panel-exact")
+                ctx.count(f"targeted-panel-exact:{alg}")
+                if probe.failing is not None:
+                    break
+        if probe.failing is not None:
+            break
+    if probe.failing is not None:
+        probe.failing["stale_table_rows"] = list(rows)[:12]
+    elif probe.unexplained:
+        ctx.count("targeted-panel:model-differs-without-oracle-failure", probe.unexplained)
+    return probe.failing
+
+
 def search(ctx, model, why):
     """oracle search on the implementation alone: documented equations vs step() on fresh random instances"""
     common.setup_scico()
     rng = np.random.Generator(np.random.PCG64(ctx.seed + 7919))
-    for it in range(ctx.n(6, 20) if why is not None else ctx.n(0, 10)):
+    if why is not None:
+        rows = steps_translate.diff_rows()
+        ctx.obligation_notes.append("stale table rows: " + ", ".join(rows[:20]))
+        if any(r.startswith(("ctors:", "solvers:")) for r in rows):
+            for it in range(ctx.n(8, 20)):
+                r = oracle_defaults(rng)
+                ctx.count("oracle-search-defaults")
+                if r is not None:
+                    r["stale_table_rows"] = rows[:12]
+                    return r
+        r = targeted_panel(ctx, model, rows, rng)
+        if r is not None:
+            return r
+    for it in range(0 if why is not None else ctx.n(0, 10)):
         r = oracle_defaults(rng)
         ctx.count("oracle-search-defaults")
         if r is not None:
